@@ -193,9 +193,14 @@ func (i membershipFactory) New(ctx context.Context) gossip.Task {
 	a := ctx.Value("agent").(*gossip.Agent)
 	b := ctx.Value("batch").(*protocol.BatchSnapshots)
 
-	s := b.Snapshots[0]
-
 	QedAuditorBatchesReceivedTotal.Inc()
+
+	if len(b.Snapshots) == 0 {
+		// nothing to audit in an empty batch (a peer may gossip one)
+		return func() error { return nil }
+	}
+
+	s := b.Snapshots[0]
 
 	return func() error {
 		timer := prometheus.NewTimer(QedAuditorBatchesProcessSeconds)
